@@ -33,7 +33,7 @@ TRUSTED = [
 ]
 ASSUMPTIONS = ['compose() of collections holding Set-Cookie / WWW-Authenticate / Proxy-Authenticate (field-specific split) is outside the model and judged by the oracle only',
 	'compose_parse_roundtrip assumes the stored names are canonical (what formatkey produces) and the values are as the parser stores them (no outer white space, no CR)']
-RULE = ('operation sequences (length <= 30) of set/get/contains/del/pop/append/setdefault/parse/compose over names from the token alphabet in random letter case, registered names, invalid names '
+RULE = ('operation sequences (length <= 30) of set/get/contains/del/pop/append/setdefault/update (from a dict, a plain CaseInsensitiveDict, a Headers)/parse/compose over names from the token alphabet in random letter case, registered names, invalid names '
 	'(separators, controls, 8-bit, ligatures), values over visible ASCII / Latin-1 / arbitrary Unicode (RFC 2047 on assignment), short and 40-200 octets long; parse blocks with repeated fields, continuation lines, odd whitespace; '
 	'non-trivial = sequence with >= 2 distinct surviving keys; distinct by final collection')
 
@@ -114,8 +114,12 @@ def cases(rng, tier):
 					name = rand_case(rng, name.decode('ascii')).encode()
 				except UnicodeDecodeError:
 					pass
-			k = rng.choice('SSSGGHDPAAARCF')
-			if k in 'SAF':
+			k = rng.choice('SSSGGHDPAAARCFU')
+			if k == 'U':
+				# update() from a one-field mapping: a dict, a plain CaseInsensitiveDict, a Headers collection
+				# (a plain CaseInsensitiveDict title-cases its keys itself - 'ßa' becomes 'Ssa' there, before Headers sees it: ASCII names only for that one)
+				ops.append((rng.choice(('U0', 'U1', 'U2') if all(b < 0x80 for b in name) else ('U0', 'U2')), name, gen_value(rng)))
+			elif k in 'SAF':
 				ops.append((k, name, gen_value(rng)))
 			elif k in 'GHDP':
 				ops.append((k, name))
@@ -139,10 +143,27 @@ def enc_value(v):
 def model_lines(case):
 	toks = []
 	for op in case[1]:
-		toks.append(op[0])
+		toks.append('S' if op[0].startswith('U') else op[0])
 		for a in op[1:]:
 			toks.append(hx(enc_value(a) if isinstance(a, str) else a))
 	return ['hdr.seq ' + ' '.join(toks)]
+
+
+def do_update(h, k, name, value):
+	from httoop import Headers
+	from httoop.util import CaseInsensitiveDict
+	try:
+		key = name.decode('ascii')
+	except UnicodeDecodeError:
+		key = name
+	if k == 'U0':
+		h.update({key: value})
+	elif k == 'U1':
+		m = CaseInsensitiveDict()
+		m[key] = value
+		h.update(m)
+	else:
+		h.update(Headers({key: value}))
 
 
 def apply_ops(ops):
@@ -152,7 +173,10 @@ def apply_ops(ops):
 	for op in ops:
 		try:
 			k = op[0]
-			if k == 'S':
+			if k.startswith('U'):
+				do_update(h, k, op[1], op[2])
+				outs.append('ok')
+			elif k == 'S':
 				h[op[1]] = op[2]
 				outs.append('ok')
 			elif k == 'A':
@@ -214,13 +238,19 @@ def oracle(case):
 	dirty = False
 	for op in ops:
 		k = op[0]
+		upd = k if k.startswith('U') else None
+		if upd:
+			k = 'S'
 		if k == 'R' and (b'\n' in op[1].replace(b'\r\n', b'') or b'\r' in op[1].replace(b'\r\n', b'')):
 			dirty = True
 		name = op[1] if len(op) > 1 and k != 'R' else None
 		try:
 			if k in 'SAF' and is_bad_name(name):
 				try:
-					(h.__setitem__ if k == 'S' else h.append if k == 'A' else h.setdefault)(name, op[2])
+					if upd:
+						do_update(h, upd, name, op[2])
+					else:
+						(h.__setitem__ if k == 'S' else h.append if k == 'A' else h.setdefault)(name, op[2])
 				except InvalidHeader:
 					continue
 				return {'what': 'invalid field name accepted on assignment', 'name': name.decode('latin-1'), 'finding': None}
@@ -238,7 +268,10 @@ def oracle(case):
 				if was is None:
 					ref[name.lower()] = want
 			elif k == 'S':
-				h[name] = op[2]
+				if upd:
+					do_update(h, upd, name, op[2])
+				else:
+					h[name] = op[2]
 				ref[name.lower()] = enc_value(op[2])
 			elif k == 'A':
 				h.append(name, op[2])
